@@ -13,12 +13,52 @@ AbbrevOwnerT = Obj('DWARFInfo', _inv=ABBREV_INV, _rep=('_abbrevtable_cache',), d
                    _abbrevtable_cache=DictOf(AbbrevT))
 
 
+from specs.abbrev import abbr_off
+from specs.dieparse import uleb_val, uleb_next
+from specs.elf import P
+
+DeclObjT = Obj('AbbrevDecl', code=Nat, decl=Rec(tag=CodeT(64), children_flag=CodeT(8), attr_spec=Any), _has_children=Bool)
+TableT = Obj('AbbrevTable', structs=StructsT, stream=Stream, offset=Nat)
+
+
+@contract("elftools/dwarf/abbrevtable.py", "AbbrevDecl.__init__", props=["C10", "C04"])
+class abbrevdecl_init:
+    inline = True
+
+
+@contract("elftools/dwarf/abbrevtable.py", "AbbrevTable._parse_abbrev_table", props=["C10", "C04"])
+class parse_abbrev_table:
+    """7.5.3: the table is read from ITS OWN offset (an absolute seek: whatever the shared .debug_abbrev stream was left
+    at), pair after pair -- a code as a ULEB128 number, then the declaration right after it -- up to the first code 0;
+    every declaration is registered under its code with the tag and the children flag the bytes encode"""
+    params = dict(self=TableT)
+    returns = DictOf(DeclObjT)
+    modifies = ["self.stream.pos"]
+    ghost = {"$B": "self.stream.B", "$o": "self.offset"}
+    loops = {0: dict(
+        invariant=["self.stream.pos == abbr_off($B, $o, $k)",
+                   "forall(lambda j: uleb_val($B, abbr_off($B, $o, j)) != 0, 0, $k)",
+                   "forall(lambda c: not (c in map) or (map[c].code == c and c != 0))"],
+        shapes={"map": DictOf(DeclObjT)},
+        ghost_step={"$p": "self.stream.pos"},
+        step=["decl_code == uleb_val($B, $p)", "decl_code != 0", "decl_code in map",
+              "map[decl_code].decl.tag == P('Dwarf_abbrev_declaration', $B, uleb_next($B, $p)).tag",
+              "map[decl_code].decl.children_flag == P('Dwarf_abbrev_declaration', $B, uleb_next($B, $p)).children_flag",
+              "map[decl_code]._has_children == (P('Dwarf_abbrev_declaration', $B, uleb_next($B, $p)).children_flag == 'DW_CHILDREN_yes')"])}
+    ensures = ["@check uleb_val($B, abbr_off($B, $o, $k0)) == 0",       # (the number of pairs is a loop counter: proved here, not visible to callers)
+               "@check forall(lambda j: uleb_val($B, abbr_off($B, $o, j)) != 0, 0, $k0)",
+               "forall(lambda c: not (c in result) or (result[c].code == c and c != 0))"]
+    may_raise = ["ELFParseError", "OverflowError"]
+
+
 @contract("elftools/dwarf/abbrevtable.py", "AbbrevTable.__init__", props=["C10", "C04"])
 class abbrevtable_init:
-    """(assumed) a table object for (stream, offset); parsing its declarations moves the stream"""
-    mode = 'assume'
+    """a table object for (stream, offset) whose map is what _parse_abbrev_table builds; parsing moves the stream"""
+    params = dict(self=Obj('AbbrevTable'), structs=StructsT, stream=Stream, offset=Nat)
     sets = dict(offset="offset", stream="stream", structs="structs")
+    sets_shape = dict(_abbrev_map=DictOf(DeclObjT))
     modifies = ["stream.pos"]
+    ensures = ["forall(lambda c: not (c in self._abbrev_map) or (self._abbrev_map[c].code == c and c != 0))"]
     may_raise = ["ELFParseError", "OverflowError"]
 
 
